@@ -500,7 +500,41 @@ def _overwrites(facts, ctx, e):
 
 # ------------------------------------------------------------------------------ C14 structural
 
+def with_inlined_fallback(rule, facts, out, fn_path, keep=()):
+    """run an HIR-shaped rule; if it cannot establish something on the function as written, retry on the
+    function with its crate-local helper calls inlined (depth 1, then 2) and report the best outcome"""
+    from common import Out
+    tries = []
+    orig = dict.get(facts.hir, fn_path)
+    if orig is None:
+        rule(facts, out)
+        return
+    for dpt in (0, 1, 2):
+        o = Out(getattr(out, 'cfg', 'x'))
+        try:
+            if dpt:
+                dict.__setitem__(facts.hir, fn_path, H.inlined_fn(facts, orig, depth=dpt, keep=keep))
+            rule(facts, o)
+        finally:
+            dict.__setitem__(facts.hir, fn_path, orig)
+        bad = sum(1 for i in o.insts if not i.ok) + len(o.missing)
+        tries.append((bad, dpt, o))
+        if bad == 0:
+            break
+    tries.sort(key=lambda x: (x[0], x[1]))
+    best = tries[0][2]
+    out.insts.extend(best.insts)
+    out.anchors.extend(best.anchors)
+    out.missing.extend(best.missing)
+
+
 def run_c14(facts, out):
+    with_inlined_fallback(_run_c14, facts, out,
+                          '<section::hit_objects::decode::HitObjects as decode::DecodeBeatmap>::parse_hit_objects',
+                          keep=('first_object', 'last_object_was_spinner', 'has_flag', 'parse_with_limits', 'parse_num', 'convert_path_str', 'read_custom_sample_banks', 'convert_sound_type'))
+
+
+def _run_c14(facts, out):
     HITOBJ = '<section::hit_objects::decode::HitObjects as decode::DecodeBeatmap>::parse_hit_objects'
     hfn = facts.hir.get(HITOBJ)
     out.anchor('SS-C14', 'parse_hit_objects (HIR)', hfn is not None)
@@ -555,18 +589,21 @@ def run_c14(facts, out):
     if nc:
         e = nc[0][0]
         first = OR(M('first_object', L('state')), M('is_none', F(L('state'), 'last_object')))
+        FLAG = OR(L('new_combo'), F(ANY(), 'new_combo'))       # the parsed flag, possibly a field of a small struct
         ok = bool(find(ctx, e, first)) and bool(find(ctx, e, M('last_object_was_spinner', L('state')))) \
-            and bool(find(ctx, e, L('new_combo')))
+            and bool(find(ctx, e, FLAG))
         out.add('SS-C14', HITOBJ, 'forced-new-combo', '%s:%d' % (b.file, nc[0][1]), ok,
                 '' if ok else 'new_combo must be `first_object || last_object_was_spinner || flag`', ordinal=False)
     co = struct_field_inits(hfn, 'section::hit_objects::circle::HitObjectCircle', 'combo_offset')
     if co:
-        ok = VIA(IF(L('new_combo'), CONTAINS(L('combo_offset')), CONTAINS(K(0)))).m(ctx, co[0][0])
+        FLAG = OR(L('new_combo'), F(ANY(), 'new_combo'))
+        OFFS = OR(L('combo_offset'), F(ANY(), 'combo_offset'))
+        ok = VIA(IF(FLAG, CONTAINS(OFFS), CONTAINS(K(0)))).m(ctx, co[0][0])
         out.add('SS-C14', HITOBJ, 'combo-offset-only-with-new-combo', '%s:%d' % (b.file, co[0][1]), ok,
                 '' if ok else 'combo offset must count only together with the new-combo flag', ordinal=False)
     sp = struct_field_inits(hfn, 'section::hit_objects::spinner::HitObjectSpinner', 'new_combo')
     if sp:
-        ok = L('new_combo').m(ctx, sp[0][0])
+        ok = OR(L('new_combo'), F(ANY(), 'new_combo')).m(ctx, sp[0][0])
         out.add('SS-C14', HITOBJ, 'spinner-new-combo', '%s:%d' % (b.file, sp[0][1]), ok, '' if ok else 'spinner new_combo is not the flag', ordinal=False)
     # last_object set after success only is EA's business; here: it stores the stripped type
     la = find(ctx, hfn['body'], ANY())
